@@ -35,7 +35,7 @@ RULE = ('Part A (git): the robot password is a Hypothesis-generated sentinel '
         'index in the first history of each shard, one per template in '
         'the two others). Part B (GitHub): password and GitHub-App authentication '
         'flows of the real github client against a scripted '
-        'requests.Session, every endpoint answered 200/401/403/404/500 in '
+        'requests.Session, every endpoint answered 200/401/403/404/500/429/502 in '
         'turn. Sinks searched for the sentinel in raw, quote_plus and quote '
         'form (and for the app JWT / installation token): every log record '
         'formatted with its exception chain, stdout/stderr captured at fd '
